@@ -576,6 +576,9 @@ func do_UNPACK_EX(vm *Vm, counts int32) error {
 func do_SET_ADD(vm *Vm, i int32) error {
 	w := vm.POP()
 	v := vm.PEEK(int(i))
+	if err := py.Unhashable(w); err != nil {
+		return err
+	}
 	v.(*py.Set).Add(w)
 	return nil
 }
@@ -1075,7 +1078,11 @@ func do_BUILD_TUPLE(vm *Vm, count int32) error {
 
 // Works as BUILD_TUPLE, but creates a set.
 func do_BUILD_SET(vm *Vm, count int32) error {
-	set := py.NewSetFromItems(vm.frame.Stack[len(vm.frame.Stack)-int(count):])
+	items := vm.frame.Stack[len(vm.frame.Stack)-int(count):]
+	if err := py.Unhashable(items...); err != nil {
+		return err
+	}
+	set := py.NewSetFromItems(items)
 	vm.DROPN(int(count))
 	vm.PUSH(set)
 	return nil
